@@ -15,6 +15,7 @@ FLOORS = {
     "shape:empty": 20, "shape:no_instructions": 100, "shape:100+_instructions": 40,
     # the same functions through the real pass.Compile (graph read off the function when the pipeline stops in the allocator)
     "pipe:judged": 20000, "pipe:ok": 9000, "pipe:err": 4000, "pipe:pruned_something": 3000,
+    "pipe:file:0+0": 2000, "pipe:file:1+0": 2000, "pipe:file:0+1": 2000, "pipe:file:1+1": 2000, "pipe:file:2+0": 2000, "pipe:file:0+2": 2000, "pipe:file:2+2": 2000,
 }
 
 
@@ -78,7 +79,7 @@ def run(ctx):
         "(pipe) EVERY function of the three streams is additionally cloned, prefixed with 33 instructions that keep 17 general-purpose "
         "virtual registers alive (so that the REAL pass.Compile stops with an error in AllocateRegisters, after Verify, "
         "PruneJumpToFollowingLabel, PruneDanglingLabels, LabelTarget, CFG, ZeroExtend32BitOutputs and Liveness ran in their real order "
-        "and before PruneSelfMoves clears Succ/Pred) and run through pass.Compile; the node list as the pipeline left it and the graph "
+        "and before PruneSelfMoves clears Succ/Pred) and run through pass.Compile in a file with 0-2 small compiling functions before and 0-2 after it; the node list as the pipeline left it and the graph "
         "found on its instructions (instruction list taken from fn.Nodes, not from an accessor) are compared with the model and judged "
         "by the acceptor exactly like the direct route: state left behind by an earlier pass of the pipeline is visible here. "
         "Only ok / err / panic is tied to the implementation: WHICH of the four errors avo reports (its message) is read for the "
